@@ -279,3 +279,279 @@ Proof.
 Qed.
 
 End IAT.
+
+(* ------------------------------------------------------------------ every IAT batch handed to AddToFile validates *)
+
+Section MixedValid.
+Variables (A : Arith.tables) (T : Offsets.otable) (TT : BuildIAT.ttable).
+Hypothesis HA : agree A T.
+Hypothesis HI : iagree A TT.
+Variables (hd : bytes -> hdrp) (sp : bytes -> stdp) (ip : bytes -> ipay) (ap : bytes -> apay) (iq : bytes -> iqpay).
+Variable kiat : bytes -> bool.
+
+Local Notation toi := (to_iat_entry ip).
+Local Notation fb := (f_batch A (hp_of hd) (fp_of sp)).
+Local Notation pok := (pair_ok A (hp_of hd) (fp_of sp)).
+
+(* per (header, entry) under an IAT header: what IATBatch.Validate (Arith's part, the addenda limits)
+   says about the entry *)
+Definition iat_pair (p : bytes * entry) : Prop := kiat (fst p) = true -> iat_entry_ok A hd ip iq (fst p) (snd p).
+
+(* an IAT consolidated batch: Create succeeds as C05's iat_build says (created_i) AND the validator
+   accepts what build left *)
+Definition created_iv (x : batch) : Prop :=
+  created_i TT hd ip kiat x /\
+  exists b', create_iat TT hd ip x = Some b' /\ create_iat_v A TT hd ip iq x = Some b'
+    /\ iat_skeleton hd iq x b' = fi_batch A hd ip iq x
+    /\ Arith.validate_batch A (iat_skeleton hd iq x b') = Arith.ROk
+    /\ forallb seqs_okb (BuildIAT.ib_entries b') = true
+    /\ forallb addenda_limits (BuildIAT.ib_entries b') = true
+    /\ is_category_iat x = true.
+
+Lemma consolidated_validated inf inp order all :
+  mixed_file kiat inp ->
+  kinds_consistent inp -> Forall traces_nodup inp ->
+  Forall (fun b => kiat (b_sig b) = false -> Arith.validate_batch A (fb b) = Arith.ROk) inp ->
+  Forall (mixed_pair hd ip kiat) (ids inp) -> Forall iat_pair (ids inp) ->
+  i_debit inf = sum_pairs (db_p T TT sp ip kiat) inp -> i_credit inf = sum_pairs (cr_p T TT sp ip kiat) inp ->
+  cat_rule inp ->
+  i_debit inf <= Arith.t_file_limit A -> i_credit inf <= Arith.t_file_limit A ->
+  Arith.t_file_limit A <= Arith.t_batch_limit A ->
+  admissible inp order -> Permutation all (all_batches (run order)) ->
+  Forall (fun x => (created_s A T hd sp kiat x \/ created_iv x) /\ StronglySorted trace_lt (b_entries x)) (pre all)
+  /\ Permutation (ids all) (ids inp).
+Proof.
+  intros Hmix Hk Hnd Hv Hmp Hip E2 E3 Hcat L1 L2 L3 Hadm Hall.
+  destruct (consolidated_created_mixed A T TT HA hd sp ip kiat inf inp order all Hmix Hk Hnd Hv Hmp E2 E3 Hcat L1 L2 L3 Hadm Hall)
+    as (Hcv & Pall).
+  split; [|exact Pall].
+  assert (Hs : flatten_spec inp (finalize all)) by (exists order, all; split; [exact Hadm|split; [exact Hall|reflexivity]]).
+  unfold mixed_file in Hmix.
+  assert (Hks : Forall (kind_sig kiat) inp) by (eapply Forall_impl; [|exact Hmix]; intros x (_ & _ & H); exact H).
+  destruct (flatten_conservation inp _ Hk Hs) as (P1 & _).
+  pose proof (flatten_pairs inp _ _ Hk Hs (std_pairs_ok A hd sp kiat inp Hks Hv)) as Hpok.
+  pose proof (flatten_pairs inp _ (mixed_pair hd ip kiat) Hk Hs Hmp) as Hhdr.
+  pose proof (flatten_pairs inp _ iat_pair Hk Hs Hip) as Hipo.
+  rewrite Forall_forall in Hpok, Hhdr, Hipo.
+  assert (Hamt : forall p, In p (ids (finalize all)) -> 0 <= e_amount (snd p)).
+  { intros p Hp. destruct (kiat (fst p)) eqn:Eki.
+    - now destruct (Hhdr p Hp) as (_ & _ & H); destruct (H Eki) as (_ & _ & _ & Ha).
+    - destruct (Hpok p Hp Eki) as (_ & _ & Hst & _).
+      apply entry_static_spec in Hst as [Hst _]. apply validate_entry_facts in Hst as (_ & _ & Ha). now destruct (Ha eq_refl). }
+  assert (Hdb : forall p, In p (ids (finalize all)) -> 0 <= db_p T TT sp ip kiat p).
+  { intros p Hp. specialize (Hamt p Hp). unfold db_p. destruct (kiat (fst p)).
+    - unfold BuildIAT.idb_amt, to_iat_entry. cbn [BuildIAT.ie_code BuildIAT.ie_amount].
+      destruct (Offsets.mem _ (BuildIAT.tt_iat_credit TT)); [lia|]. destruct (Offsets.mem _ (BuildIAT.tt_iat_debit TT)); lia.
+    - unfold db_e, Offsets.db_amt, to_off_entry. cbn [Offsets.e_code Offsets.e_amount].
+      destruct (Offsets.mem _ (Offsets.t_credit T)); [lia|]. destruct (Offsets.mem _ (Offsets.t_debit T)); lia. }
+  assert (Hcr : forall p, In p (ids (finalize all)) -> 0 <= cr_p T TT sp ip kiat p).
+  { intros p Hp. specialize (Hamt p Hp). unfold cr_p. destruct (kiat (fst p)).
+    - unfold BuildIAT.icr_amt, to_iat_entry. cbn [BuildIAT.ie_code BuildIAT.ie_amount].
+      destruct (Offsets.mem _ (BuildIAT.tt_iat_credit TT)); lia.
+    - unfold cr_e, Offsets.cr_amt, to_off_entry. cbn [Offsets.e_code Offsets.e_amount].
+      destruct (Offsets.mem _ (Offsets.t_credit T)); lia. }
+  rewrite Forall_forall in Hcv. apply Forall_forall. intros x Hx.
+  destruct (Hcv x Hx) as ([Hcs|Hci] & Hso); (split; [|exact Hso]); [now left|right].
+  split; [exact Hci|]. destruct Hci as (Kx & Kix & b0 & Hc0 & _).
+  destruct (pre_in_out all x Hx) as (y & Hy & Ky & Sy & Ey & Ay).
+  assert (Hxne : b_entries x <> []).
+  { intros En. unfold create_iat, BuildIAT.iat_build, to_iat in Hc0. cbn [BuildIAT.ib_hdr_ok BuildIAT.ib_entries] in Hc0.
+    rewrite En in Hc0. cbn [map] in Hc0. destruct (negb (hd_ok (hd (b_sig x)))); discriminate. }
+  assert (Hidx : forall e, In e (b_entries x) -> In (b_sig x, e) (ids (finalize all))).
+  { intros e He. rewrite <- Sy. apply in_ids; [exact Hy|now rewrite Ey]. }
+  destruct (b_entries x) as [|e0 es0] eqn:Ex; [congruence|]. rewrite <- Ex in *.
+  assert (Hi0 : In (b_sig x, e0) (ids (finalize all))) by (apply Hidx; rewrite Ex; now left).
+  destruct (Hhdr _ Hi0) as (Hok & _ & Hiat). cbn [fst snd] in Hok, Hiat. destruct (Hiat Kix) as (Hnum & _).
+  assert (Kiy : kiat (b_sig y) = true) by now rewrite Sy.
+  assert (Hcx : category_ok x = true).
+  { pose proof (flatten_category inp _ Hk (cat_rule_uniform inp Hcat) Hs) as Hck.
+    assert (Hcok : forallb category_ok (finalize all) = true).
+    { unfold checked in Hck. destruct (forallb category_ok (finalize all)); [reflexivity|discriminate]. }
+    rewrite forallb_forall in Hcok. specialize (Hcok y Hy). unfold category_ok in *. now rewrite <- Ey, <- Ay. }
+  apply (create_iat_validates A TT HI hd ip iq x Hok Hnum Hxne).
+  - apply Forall_forall. intros e He. destruct (Hhdr _ (Hidx e He)) as (_ & _ & H). cbn [fst snd] in H.
+    destruct (H Kix) as (_ & H1 & H2 & _). now split.
+  - intros e He. exact (Hipo _ (Hidx e He) Kix).
+  - exact Hso.
+  - rewrite <- Ey. unfold BuildIAT.idebits. rewrite zsum_sumZ, map_map.
+    rewrite <- (map_ext (fun e => db_p T TT sp ip kiat (b_sig y, e)) (fun e => BuildIAT.idb_amt TT (toi e)))
+      by (intros e; unfold db_p; cbn [fst snd]; now rewrite Kiy).
+    eapply Z.le_trans; [apply (pair_member_le (db_p T TT sp ip kiat) (finalize all) y Hdb Hy)|].
+    rewrite (sum_pairs_perm _ _ _ P1), <- E2. lia.
+  - rewrite <- Ey. unfold BuildIAT.icredits. rewrite zsum_sumZ, map_map.
+    rewrite <- (map_ext (fun e => cr_p T TT sp ip kiat (b_sig y, e)) (fun e => BuildIAT.icr_amt TT (toi e)))
+      by (intros e; unfold cr_p; cbn [fst snd]; now rewrite Kiy).
+    eapply Z.le_trans; [apply (pair_member_le (cr_p T TT sp ip kiat) (finalize all) y Hcr Hy)|].
+    rewrite (sum_pairs_perm _ _ _ P1), <- E3. lia.
+  - exact Hcx.
+Qed.
+
+(* FlattenBatches on a valid file of standard and IAT batches: C12_succeeds_iat with every IAT batch validated *)
+Theorem flatten_succeeds_iat_valid inf inp r :
+  mixed_file kiat inp -> inp <> [] -> i_hdr_ok inf = true ->
+  kinds_consistent inp -> Forall traces_nodup inp ->
+  Forall (fun b => kiat (b_sig b) = false -> Arith.validate_batch A (fb b) = Arith.ROk) inp ->
+  Forall (mixed_pair hd ip kiat) (ids inp) -> Forall iat_pair (ids inp) ->
+  i_count inf = sum_pairs (cnt_p ip kiat) inp ->
+  i_debit inf = sum_pairs (db_p T TT sp ip kiat) inp -> i_credit inf = sum_pairs (cr_p T TT sp ip kiat) inp ->
+  cat_rule inp ->
+  i_debit inf <= Arith.t_file_limit A -> i_credit inf <= Arith.t_file_limit A ->
+  Arith.t_file_limit A <= Arith.t_batch_limit A ->
+  flatten_full_spec A T TT hd sp ip ap inf inp r ->
+  (fst r = FOk \/ (fst r = FErrValidate /\ file_ctl_ok A (snd r) = false))
+  /\ Offsets.fc_count (af_ctl (snd r)) = i_count inf
+  /\ Offsets.fc_debit (af_ctl (snd r)) = i_debit inf
+  /\ Offsets.fc_credit (af_ctl (snd r)) = i_credit inf
+  /\ exists all, r = finish A T TT hd sp ip ap inf all /\ flatten_spec inp (finalize all)
+       /\ (length (af_std (snd r)) + length (af_iat (snd r)) = length all)%nat
+       /\ Forall (fun x => (created_s A T hd sp kiat x \/ created_iv x) /\ StronglySorted trace_lt (b_entries x)) (pre all).
+Proof.
+  intros Hmix Hne Hh Hk Hnd Hv Hmp Hip E1 E2 E3 Hcat L1 L2 L3 (order & all & Hadm & Hall & ->).
+  destruct (consolidated_validated inf inp order all Hmix Hk Hnd Hv Hmp Hip E2 E3 Hcat L1 L2 L3 Hadm Hall) as (Hcv & Pall).
+  assert (Hcr : Forall (fun x => created_s A T hd sp kiat x \/ created_i TT hd ip kiat x) (pre all)).
+  { eapply Forall_impl; [|exact Hcv]. intros x [[H|[H _]] _]; [now left|now right]. }
+  unfold mixed_file in Hmix.
+  assert (Hall_ne : all <> []).
+  { intros ->. destruct inp as [|b0 inp']; [congruence|]. inversion Hmix as [|? ? (Hb0 & _) _]; subst.
+    destruct (b_entries b0) as [|e0 q] eqn:E; [congruence|].
+    assert (Hin : In (b_sig b0, e0) (ids (b0 :: inp'))) by (apply in_ids; [now left|rewrite E; now left]).
+    eapply Permutation_in in Hin; [|apply Permutation_sym, Pall]. destruct Hin. }
+  destruct (finish_mixed A T TT hd sp ip ap kiat inf all Hh Hall_ne Hcr) as (R1 & R2 & R3 & R4 & R5).
+  - rewrite E1. symmetry. now apply sum_pairs_perm.
+  - rewrite E2. symmetry. now apply sum_pairs_perm.
+  - rewrite E3. symmetry. now apply sum_pairs_perm.
+  - split; [exact R1|]. split; [exact R3|]. split; [exact R4|]. split; [exact R5|].
+    exists all. split; [reflexivity|]. split; [exists order, all; split; [exact Hadm|split; [exact Hall|reflexivity]]|].
+    split; [exact R2|exact Hcv].
+Qed.
+
+(* valid files never mix ADV with other kinds — under the validity hypotheses of C12_succeeds_iat no
+   batch of the input is an ADV batch *)
+Lemma valid_never_mixed inp :
+  mixed_file kiat inp -> Forall (mixed_pair hd ip kiat) (ids inp) ->
+  Forall (fun b => b_adv b = [] /\ (b_kind b = Flatten.KStd -> hd_adv (hd (b_sig b)) = false)) inp.
+Proof.
+  intros Hmix Hmp. unfold mixed_file in Hmix. rewrite Forall_forall in Hmix, Hmp.
+  apply Forall_forall. intros b Hb. destruct (Hmix b Hb) as (Hne & Ha & Hks). split; [exact Ha|].
+  intros Kb. destruct Hks as [(_ & Ki)|(Kb' & _)]; [|congruence].
+  destruct (b_entries b) as [|e0 q] eqn:E; [congruence|].
+  destruct (Hmp (b_sig b, e0)) as (_ & H & _); [apply in_ids; [exact Hb|rewrite E; now left]|].
+  cbn [fst] in H. now destruct (H Ki).
+Qed.
+
+End MixedValid.
+
+(* ------------------------------------------------------------------ ADV batches next to other batches *)
+
+Lemma n_adv_zero ss : (n_adv ss =? 0)%nat = negb (existsb sb_is_adv ss).
+Proof.
+  unfold n_adv. induction ss as [|s ss IH]; cbn [filter existsb length]; [reflexivity|].
+  destruct (sb_is_adv s); cbn [length orb negb]; [reflexivity|exact IH].
+Qed.
+
+Lemma n_std_zero ss : (n_std ss =? 0)%nat = forallb sb_is_adv ss.
+Proof.
+  unfold n_std. induction ss as [|s ss IH]; cbn [filter forallb length]; [reflexivity|].
+  destruct (sb_is_adv s); cbn [negb length andb]; [exact IH|reflexivity].
+Qed.
+
+Lemma adv_file_loop_fst bs : forall q, fst (adv_file_loop q bs) = forallb sb_is_adv bs.
+Proof.
+  induction bs as [|s bs IH]; intros q; cbn [adv_file_loop forallb]; [reflexivity|].
+  destruct s as [b|a]; cbn [sb_is_adv andb fst]; [reflexivity|].
+  specialize (IH (q + 1)). destruct (adv_file_loop (q + 1) bs) as [ok r']. cbn [fst] in *. exact IH.
+Qed.
+
+(* File.Create on the file AddToFile assembled (no file options): it fails exactly when [create_refuses] *)
+Lemma create_all_class TT hdr ss ibs c1 c2 : BuildIAT.tt_adv_iat_guard TT = true ->
+  fst (file_create_all TT (mkaf hdr (mkfo false false false) ss ibs c1 c2)) = negb (create_refuses hdr ss ibs).
+Proof.
+  intros Hg. unfold file_create_all, create_refuses, file_is_adv.
+  cbn [af_opts fo_skip_all fo_allow_missing_hdr fo_allow_zero af_hdr_ok af_std af_iat negb andb].
+  destruct hdr; cbn [negb orb fst]; [|reflexivity].
+  rewrite Hg. cbn [andb].
+  assert (E3 : forall a b c : nat, (a + b + c =? 0)%nat = ((a =? 0)%nat && (b =? 0)%nat && (c =? 0)%nat))
+    by (intros a b c; destruct a, b, c; reflexivity).
+  assert (E2 : forall b c : nat, (b + c =? 0)%nat = ((b =? 0)%nat && (c =? 0)%nat)) by (intros b c; destruct b, c; reflexivity).
+  rewrite E3, E2, n_adv_zero, n_std_zero.
+  destruct ss as [|s ss'].
+  - cbn [existsb forallb negb andb orb length Nat.eqb]. destruct ibs as [|i ibs']; reflexivity.
+  - cbn [andb]. destruct (existsb sb_is_adv (s :: ss')) eqn:Ex; cbn [negb andb orb fst].
+    + destruct ibs as [|i ibs']; cbn [length Nat.eqb andb negb orb fst].
+      * specialize (adv_file_loop_fst (s :: ss') 1) as Hl. destruct (adv_file_loop 1 (s :: ss')) as [ok r'] eqn:El.
+        cbn [fst] in Hl. rewrite Hl. destruct ok; cbn [fst]; rewrite <- Hl; reflexivity.
+      * rewrite andb_false_r. reflexivity.
+    + assert (Hf : forallb sb_is_adv (s :: ss') = false).
+      { cbn [existsb forallb] in *. apply orb_false_elim in Ex as [E0 _]. now rewrite E0. }
+      rewrite Hf. reflexivity.
+Qed.
+
+Section MixedAdv.
+Variables (A : Arith.tables) (T : Offsets.otable) (TT : BuildIAT.ttable).
+Hypothesis Hguard : BuildIAT.tt_adv_iat_guard TT = true.
+Variables (hd : bytes -> hdrp) (sp : bytes -> stdp) (ip : bytes -> ipay) (ap : bytes -> apay).
+
+(* the error class of File.Create inside Flatten, exactly: FErrCreate is returned iff the file header
+   is invalid, or no batch survived AddToFile, or an ADV batch survived next to a standard or IAT batch *)
+Theorem finish_create_class inf all :
+  fst (finish A T TT hd sp ip ap inf all) = FErrCreate <->
+  create_refuses (i_hdr_ok inf) (fst (survivors A T TT hd sp ip ap all)) (snd (survivors A T TT hd sp ip ap all)) = true.
+Proof.
+  unfold finish, survivors. destruct (add_all A T TT hd sp ip ap (map sort_entries (sort_by num_ltb all))) as [ss ibs].
+  cbn [fst snd].
+  pose proof (create_all_class TT (i_hdr_ok inf) ss ibs zero_fctl zero_fctl Hguard) as Hc.
+  destruct (file_create_all TT (mkaf (i_hdr_ok inf) (mkfo false false false) ss ibs zero_fctl zero_fctl)) as [ok f].
+  cbn [fst] in Hc. destruct ok.
+  - assert (Hr : create_refuses (i_hdr_ok inf) ss ibs = false) by (destruct (create_refuses (i_hdr_ok inf) ss ibs); [discriminate|reflexivity]).
+    rewrite Hr. split; [|discriminate].
+    destruct (negb (file_ctl_ok A f)); [discriminate|]. destruct (negb (i_count inf =? _)); [discriminate|].
+    destruct (negb (i_debit inf =? _)); [discriminate|]. destruct (negb (i_credit inf =? _)); discriminate.
+  - assert (Hr : create_refuses (i_hdr_ok inf) ss ibs = true) by (destruct (create_refuses (i_hdr_ok inf) ss ibs); [reflexivity|discriminate]).
+    rewrite Hr. split; reflexivity.
+Qed.
+
+(* ... in particular: whenever a standard or IAT batch survives next to an ADV batch, File.Create of the
+   result fails (ErrFileADVOnly), whatever else the file holds *)
+Theorem finish_mixed_adv_error inf all :
+  n_adv (fst (survivors A T TT hd sp ip ap all)) <> 0%nat ->
+  (n_std (fst (survivors A T TT hd sp ip ap all)) + length (snd (survivors A T TT hd sp ip ap all)))%nat <> 0%nat ->
+  fst (finish A T TT hd sp ip ap inf all) = FErrCreate.
+Proof.
+  intros H1 H2. apply finish_create_class. unfold create_refuses.
+  apply Nat.eqb_neq in H1, H2. rewrite H1, H2. cbn [negb andb]. now rewrite orb_true_r.
+Qed.
+
+Theorem flatten_mixed_adv_error inf inp r :
+  flatten_full_spec A T TT hd sp ip ap inf inp r ->
+  exists all, r = finish A T TT hd sp ip ap inf all /\ flatten_spec inp (finalize all) /\
+    let sv := survivors A T TT hd sp ip ap all in
+    (fst r = FErrCreate <-> create_refuses (i_hdr_ok inf) (fst sv) (snd sv) = true) /\
+    (n_adv (fst sv) <> 0%nat -> (n_std (fst sv) + length (snd sv))%nat <> 0%nat -> fst r = FErrCreate).
+Proof.
+  intros (order & all & Hadm & Hall & ->). exists all. split; [reflexivity|].
+  split; [exists order, all; split; [exact Hadm|split; [exact Hall|reflexivity]]|].
+  cbv zeta. split; [apply finish_create_class|apply finish_mixed_adv_error].
+Qed.
+
+End MixedAdv.
+
+(* File.Create never returns a file that mixes the kinds: a file on which it succeeded either holds
+   no ADV batch, or ADV batches only and no IAT batch — so no valid (created) file is mixed *)
+Theorem create_never_mixed TT f f' : BuildIAT.tt_adv_iat_guard TT = true ->
+  file_create_all TT f = (true, f') ->
+  file_is_adv f' = false \/ (forallb sb_is_adv (af_std f') = true /\ af_iat f' = []).
+Proof.
+  intros Hg. unfold file_create_all.
+  destruct (negb (fo_skip_all (af_opts f)) && negb (fo_allow_missing_hdr (af_opts f)) && negb (af_hdr_ok f)); [discriminate|].
+  destruct (negb (fo_skip_all (af_opts f)) && negb (fo_allow_zero (af_opts f)) && _ && _); [discriminate|].
+  destruct (negb (file_is_adv f)) eqn:Ea.
+  - intros H. injection H as <-. left. unfold file_is_adv, af_with in *. cbn [af_std].
+    rewrite is_adv_renumber. now apply negb_true_iff in Ea.
+  - rewrite Hg. cbn [andb]. destruct (af_iat f) as [|i ibs] eqn:Ei; [|discriminate].
+    destruct (adv_file_loop 1 (af_std f)) as [ok ss] eqn:El. destruct ok; [|discriminate].
+    intros H. injection H as <-. right. unfold af_with. cbn [af_std af_iat]. split; [|reflexivity].
+    destruct (adv_file_loop_ok _ _ _ El) as (Hf & ->).
+    clear -Hf. revert Hf. generalize 1. induction (af_std f) as [|s l IH]; intros q H; cbn [renumber_s forallb]; [reflexivity|].
+    cbn [forallb] in H. apply andb_prop in H as [H0 H1]. rewrite (IH _ H1), andb_true_r.
+    destruct (sb_num s <=? 1); [destruct s; cbn [sset_num sb_is_adv] in *; assumption|assumption].
+Qed.
